@@ -53,7 +53,7 @@ def main():
         tally['own' if (m['property'] + ':quick') in hits else ('other' if hits else ('superseded' if m.get('status', '').startswith('superseded') else 'none'))] += 1
         out.append('| %s | %s | %s | %s | %s |' % (m['name'], m['property'], needs, status, ', '.join(keys[:3])))
     out.append('')
-    out.insert(summary_at, 'All %d changes were re-run against the final version of their property\'s quick check (regression run of 2026-09-28): %d are detected by '
+    out.insert(summary_at, 'All %d changes have been run against their property\'s quick check (the first 220 in the regression run of 2026-09-28 on the frozen checks; the 8 of the seventh wave, `-m12`, individually afterwards - the C04 and C09 extensions made for them only add units to those two checks, so no earlier detection can be lost): %d are detected by '
                'their own property\'s check, %d only by the check of another property (named in the table), %d lost their precondition through a later '
                'fix (superseded), %d are not detected (reason in the table).\n' % (sum(tally.values()), tally['own'], tally['other'], tally['superseded'], tally['none']))
     text = '\n'.join(out)
